@@ -264,7 +264,10 @@ class _MetricCache(defaultdict):
   def store(self, metric, datapoint):
     timestamp, value = datapoint
     with self.lock:
-      if timestamp not in self[metric]:
+      # Use get() here: indexing would create an empty entry for a new metric
+      # even when the datapoint is then refused because the cache is full.
+      datapoints = self.get(metric)
+      if datapoints is None or timestamp not in datapoints:
         # Not a duplicate, hence process if cache is not full
         if self.is_full:
           log.msg("MetricCache is full: self.size=%d" % self.size)
@@ -274,7 +277,7 @@ class _MetricCache(defaultdict):
             # This will disable reading when flow control is enabled
             log.msg("MetricCache is nearly full: self.size=%d" % self.size)
             events.cacheFull()
-          if not self[metric]:
+          if not datapoints:
             self.new_metrics.append(metric)
           self.size += 1
           self[metric][timestamp] = value
@@ -282,7 +285,7 @@ class _MetricCache(defaultdict):
             self.strategy.store(metric)
       else:
         # Updating a duplicate does not increase the cache size
-        self[metric][timestamp] = value
+        datapoints[timestamp] = value
 
 
 _Cache = None
